@@ -15,7 +15,8 @@ CHECKS = {
         "implementation with state deduplication; after every step every open handle and the file itself (independent parser) are compared with a dict of "
         "successful puts. Exhaustive within the bound, which is where stale-index and failed-op defects live (they need <= 5 steps). The Collection layer also takes "
         "every accessor as the first call after a put / session entry, puts that are followed by no read at all (the queued state is carried forward), an explicit flush, and a "
-        "second library on another path used by the same process; the UKVFile layer has copy_items as a read route and as a put route.",
+        "second library on another path used by the same process, and handles constructed with overwrite=True (the library starts again, older handles follow); the UKVFile layer has copy_items as a read "
+        "route and as a put route, creation with mode w, reopening without a mode and pickled handles.",
         "Bounded depth and alphabet (6 keys incl. 255/256 byte and binary, 3..4 values incl. 70 kB in thorough); single process (the reader/writer discipline is C04's); python dict as reference.",
         "4 C02",
     ),
@@ -41,7 +42,7 @@ CHECKS["C04"] = (
     "2..3 real processes with long-lived Collection handles (different spellings of one path, different buffer sizes) run every program tuple of reading()/writing() sessions; a controller "
     "owns every lock and file action (fasteners trylock/unlock and the library stream are wrapped at run time) and executes EVERY schedule with <= 2 (thorough: 3) preemptions; a second "
     "family injects one exception at every fault point of a session (body, encoder, n-th file write, close, open, final flush losing the buffered data, an item that can never be written); further families: "
-    "the library re-created by another process, processes configured by different routes (environment / configure()), writing sessions that read before they store; a lifecycle family adds sessions with a timeout (they give up instead of waiting) and processes that terminate normally while others keep working (the library's atexit hooks run under the scheduler). Oracles: file-level writer exclusion monitor, lock compatibility, no "
+    "the library re-created by another process, processes configured by different routes (environment / configure()), writing sessions that read before they store, handles received by pickle from a parent that created the library with overwrite=True, one process working on two libraries; a lifecycle family adds sessions with a timeout (they give up instead of waiting) and processes that terminate normally while others keep working (the library's atexit hooks run under the scheduler). Oracles: file-level writer exclusion monitor, lock compatibility, no "
     "deadlock, state idle/file closed/lock acquirable by a third process after every session, final contents (fresh reader + independent parser) vs. the records of completed sessions, "
     "readers see complete committed records only; each reported schedule is replayed and must give the same verdict. A TLA+ session-level model (models/Sessions.tla) is explored exhaustively by TLC; ALL of its "
     "behaviours are replayed against the implementation through the scheduler (the implementation must follow each and satisfy the same oracles), and every lock-level event sequence the explorer observes on the "
